@@ -213,3 +213,31 @@ Section DialerSet.
 
   Definition new_dialer_set (m : tagged) : list node := tags_loop m [].
 End DialerSet.
+
+(* config/parser.go at group level.  ParamParser on a Group struct: `filter` is repeatable and appends
+   the line to Filter and its (possibly nil) annotation to FilterAnnotation; `policy` assigns.
+   SectionParser on []Group: `for _, item := range section.Items { elem := reflect.New(elemType).Elem();
+   elem.Name = item.Name; SectionParser(elem.Addr(), item); to = append(to, elem) }` - the element is
+   allocated INSIDE the loop (coq/gen/C14_Consts.go_group_elem_allocated_in_loop, read from the source). *)
+Definition zero_group : group_decl := mkGroup "" [] [] None.
+
+Fixpoint param_parser (to : group_decl) (items : list group_item) : group_decl :=
+  match items with
+  | [] => to
+  | IFilter l a :: rest =>
+      param_parser (mkGroup (g_name to) (g_filter to ++ [l]) (g_anno to ++ [a]) (g_policy to)) rest
+  | IPolicy r :: rest =>
+      param_parser (mkGroup (g_name to) (g_filter to) (g_anno to) (Some r)) rest
+  end.
+
+Fixpoint section_parser (sections : list (string * list group_item)) (to : list group_decl) : list group_decl :=
+  match sections with
+  | [] => to
+  | (name, items) :: rest =>
+      let elem := zero_group in                                           (* reflect.New(elemType).Elem() *)
+      let elem := mkGroup name (g_filter elem) (g_anno elem) (g_policy elem) in   (* Name *)
+      section_parser rest (to ++ [param_parser elem items])
+  end.
+
+Definition decode_groups (sections : list (string * list group_item)) : list group_decl :=
+  section_parser sections [].
